@@ -283,3 +283,80 @@ def run(ctx):
             if call_name(c) == "self.backend.record_call_node":
                 ok = src(kwarg(c, "expr_args")) == f"({jv}.expr.args, {jv}.expr.kwargs)" and src(kwarg(c, "eval_args")) == f"{jv}.eval_args"
                 r3.check(ok, f"{sm.rel}:{q}:record_call_node-args", "record_call_node is not given the job's expression arguments and evaluated arguments", sm.rel, c.lineno)
+    _c21_5(ctx, repo)
+
+
+def _c21_5(ctx, repo):
+    """C21.5 / C21.6 appended rules (kept separate from run() for readability)."""
+    from ..core import decorators
+
+    r5 = ctx.rule("C21.5", "a scheduler task links the task calls it constructs itself to its own expression", floor=3)
+    PURE = {"quote", "list", "tuple", "dict", "len", "sorted", "range", "enumerate", "zip", "cast", "map_nested_value", "iter_nested_value"}
+    sched_tasks = {}
+    for mod in repo.modules.values():
+        for q, fn in mod.funcs.items():
+            if any(d.split(".")[-1] == "scheduler_task" for d in decorators(fn)):
+                sched_tasks[q.split(".")[-1]] = (mod, q, fn)
+    if len(sched_tasks) < 8:
+        raise AnalysisError(f"only {len(sched_tasks)} scheduler tasks found", "scheduler_task")
+    for name, (mod, q, fn) in sorted(sched_tasks.items()):
+        params = {a.arg for a in fn.args.args}
+        built = {}
+        for n in ast.walk(fn):
+            if isinstance(n, ast.Assign) and isinstance(n.targets[0], ast.Name) and isinstance(n.value, ast.Call):
+                built[n.targets[0].id] = n.value
+        constructed = []
+        for c in calls_in(fn):
+            if last_attr(c) != "evaluate" or not c.args:
+                continue
+            for x in ast.walk(c.args[0]):
+                call = None
+                if isinstance(x, ast.Call):
+                    call = x
+                elif isinstance(x, ast.Name) and x.id in built and x.id not in params:
+                    call = built[x.id]
+                if call is None:
+                    continue
+                f = call.func
+                # a task call: the callee is a task-valued parameter/local (`a_task(value)`, `recover(...)`) or `<task>.options(...)(...)`
+                callee = f.id if isinstance(f, ast.Name) else None
+                is_task_call = (callee is not None and callee not in PURE and (callee in params or callee in {a.arg for g in ast.walk(fn) if isinstance(g, FuncNode) for a in g.args.args})) or (
+                    isinstance(f, ast.Call) and isinstance(f.func, ast.Attribute) and f.func.attr == "options"
+                )
+                delegates = callee in sched_tasks  # another scheduler task: that one is responsible for its own links
+                if is_task_call and not delegates:
+                    constructed.append(src(call)[:60])
+        if not constructed:
+            r5.good(f"{mod.rel}:{q}", "evaluates only its own argument expressions (reachable through sexpr._upstreams)")
+            continue
+        rewires = any(
+            (isinstance(n, ast.Call) and call_name(n) == "derive_expression" and len(n.args) == 2 and src(n.args[1]) in params)
+            or (isinstance(n, ast.Assign) and isinstance(n.targets[0], ast.Attribute) and n.targets[0].attr == "_upstreams" and src(n.targets[0].value) in params)
+            for n in ast.walk(fn)
+        )
+        r5.check(
+            rewires,
+            f"{mod.rel}:{q}:constructed-calls-unlinked",
+            f"{q} evaluates task calls it builds itself ({'; '.join(sorted(set(constructed))[:2])}) and returns their result as its own, but never makes them upstreams of its scheduler "
+            "expression (derive_expression(<new expr>, sexpr) / sexpr._upstreams): an argument computed through this scheduler task is recorded without a link to the call that produced it",
+            mod.rel,
+            fn.lineno,
+        )
+
+    r6 = ctx.rule("C21.6", "a defaulted parameter keeps the default's expression for upstream lookup", floor=1)
+    db = repo.mod(DB)
+    ra = db.func("RedunBackendDb._record_args")
+    da = next((n for n in ast.walk(ra) if isinstance(n, ast.Assign) and src(n.targets[0]) == "default_args"), None)
+    if da is None:
+        raise AnalysisError("_record_args: default_args not found", "RedunBackendDb._record_args")
+    tup = next((x for x in ast.walk(da.value) if isinstance(x, ast.Tuple) and len(x.elts) == 4), None)
+    if tup is None:
+        raise AnalysisError("_record_args: default_args tuples not found", "RedunBackendDb._record_args")
+    r6.check(
+        src(tup.elts[2]) != src(tup.elts[3]),
+        f"{db.rel}:RedunBackendDb._record_args:default-expression",
+        f"for a defaulted parameter _record_args uses the evaluated value `{src(tup.elts[3])}` also as the argument's expression, so _find_arg_upstreams sees a plain value: a default "
+        "that is itself a task call (`def f(x, y=producer())`) is recorded as keyword argument y without an upstream link to producer()",
+        db.rel,
+        da.lineno,
+    )
